@@ -491,14 +491,17 @@ def process_fn(src_obj, containers, name, opts, subs, log):
         if kind == 'rename':
             old, new = [x.strip() for x in arg.split('=>')]
             if old not in body:
-                raise LostAnchor(f'{name}: rename source `{old}` not found')
+                # a routing of a std call through its wrapper: when the call is gone the body is verified as it stands
+                log.append(f'R5 rename source `{old}` absent: no renaming applied')
+                continue
             body = body.replace(old, new)
             log.append(f'R5 rename {old} => {new}')
         if kind == 'rename-re':
             old, new = [x.strip() for x in arg.split('=>')]
             body, cnt = re.subn(old, new, body)
             if cnt == 0:
-                raise LostAnchor(f'{name}: rename pattern `{old}` not found')
+                log.append(f'R5 rename pattern /{old}/ absent: no renaming applied')
+                continue
             log.append(f'R5 rename /{old}/ => {new}')
     # loops: process from last to first so offsets stay valid
     loops = find_loops(body)
